@@ -15,7 +15,9 @@ Search / correspondence harness (public API of the working tree only):
   eri8    ElectronRepulsionIntegral.construct_array_contraction on a quartet in all eight orientations, each
           brought back to the (s1 s2|s3 s4) layout, tolerance 1e-6 of the Schwarz scale; families: regular
           quartets and quartets pairing tight and diffuse shells; reference = exact model (command 20) when the
-          case asks for it, else the best-conditioned orientation.
+          case asks for it, else the best-conditioned orientation.  Families near-pair-far (a pair of distinct
+          centres that agree to a relative 1e-5 of their coordinates, far from the origin) and many-primitives
+          (9-10 primitives per shell, > 4096 primitive quartets): gen_special_cases.
 
 The model is the extracted runner (ModelProc); nothing is evaluated with a generated .v file except the
 extraction cross-check of main.py (xcheck_cmds).  Known finding: see KNOWN_FINDINGS.json entry
@@ -39,7 +41,14 @@ RULE = ("perm: bases of 2-5 shells, l in 0..3 with at least two different l, seg
         "tolerance 1e-10 (1e-9 point charge) x max(1, largest element) [ERI: 1e-6 x Schwarz scale]; "
         "orient: every (l_a, l_b) in 0..3^2 per operator, incl. tight x diffuse exponents, tolerance 1e-10 (1e-9 "
         "point charge) x natural scale sqrt(X_aa X_bb) (momentum: sqrt(2 T_aa S_bb)); eri8: 8 orientations, "
-        "1e-6 x Schwarz; a case is non-trivial when some l > 0 and the array is not identically zero; distinct by "
+        "1e-6 x Schwarz; eri8 family near-pair-far (quick 3, thorough 20): two shells with l in 1..2 (exponents 4..10) on "
+        "DISTINCT centres agreeing per component to within 1e-5 RELATIVE to the coordinate, 50-100 bohr per axis from the "
+        "origin, against two s shells (exponents 1..4) on one neighbour centre - all orientation estimates tie, so (AB| is "
+        "evaluated as the bra in four orientations and as the ket in four - reference exact model for L <= 3; eri8 family "
+        "many-primitives (quick 1, thorough 4): one-centre quartets (s p|s' p'), (p p'|s s'), ... whose four shells share one "
+        "even-tempered list of 9 (10) exponents alpha_0 r^k (0.1 .. ~200) with different coefficient columns (6561 primitive "
+        "quartets; every shell is the fourth shell of some evaluated orientation), implementation only, plus "
+        "electron_repulsion_integral on [s, p] of that atom in both shell orders; a case is non-trivial when some l > 0 and the array is not identically zero; distinct by "
         "the hash of the exact input")
 EXTRA = {"known_finding_id": "C11-eri-bra-tight-ket-diffuse",
          "coq_files": ["Proofs/PermP.v", "Proofs/OrientP.v", "Proofs/PermEx.v", "Props/C11.v"]}
@@ -933,9 +942,56 @@ def gen_eri8_cases(tier, rng):
     return cases
 
 
+def even_tempered(rng, k):
+    """k exponents alpha_0 r^t (alpha_0 0.06..0.2, r 2.2..2.8: 0.1 .. ~200 for k = 9), listed tight -> diffuse, doubles"""
+    a0, r = rng.uniform(0.06, 0.2), rng.uniform(2.2, 2.8)
+    return [Fraction(float(a0 * r ** t)) for t in range(k)][::-1]
+
+
+def gen_special_cases(tier, rng):
+    """Two input classes the random streams never reach (own PRNG, appended after the older streams):
+    near-pair-far   eri8 quartets with two shells (l >= 1, exponents 4..10) on DISTINCT centres A, B that agree per
+                    component to within 1e-5 RELATIVE to the coordinate (lib.far_near_centres: 3e-4..1e-3 bohr apart, 50-100
+                    bohr per axis from the origin) against two s shells on ONE neighbour centre with smaller exponents
+                    (1..4): every orientation estimate ties, so the implementation evaluates each of the eight given
+                    orientations as given - (AB| as the bra in four of them, as the ket in the other four; reference = exact model
+                    (L <= 3, K = 1);
+    many-primitives every shell with 9 (thorough: also 10) primitives, 9^4 = 6561 primitive quartets (published s / p shells of
+                    cc-pVXZ / ANO sets: 8-13), ONE even-tempered exponent list shared by the shells of an atom (general
+                    contraction) with different coefficient columns: one-centre quartets (s p|s' p'), (p p'|s s'), where all
+                    orientation estimates tie and each of the four shells is the fourth shell of some evaluated call;
+                    implementation only (best-conditioned orientation as reference), plus the whole-basis function on [s, p]
+                    in both shell orders."""
+    quick = tier == "quick"
+    cases = []
+    pats = [((1, "A"), (1, "B"), (0, "C"), (0, "C")), ((0, "C"), (0, "C"), (2, "A"), (1, "B")),
+            ((1, "B"), (2, "A"), (0, "C"), (0, "C")), ((0, "C"), (0, "C"), (1, "B"), (1, "A")),
+            ((2, "A"), (2, "B"), (0, "C"), (0, "C"))]
+    for i in range(3 if quick else 20):
+        A, B, C = lib.far_near_centres(rng)
+        at = {"A": A, "B": B, "C": C}
+        shells = [gen_shell(rng, l=l, kmax=1, mmax=1, sph=False, exp_lo=4.0 if w in "AB" else 1.0,
+                            exp_hi=10.0 if w in "AB" else 4.0, coord=at[w]) for l, w in pats[i % len(pats)]]
+        cases.append({"kind": "eri8", "family": "near-pair-far", "shells": [x.to_json() for x in shells],
+                      "model": bool(sum(x.l for x in shells) <= 3)})
+    for i in range(1 if quick else 4):
+        k = 9 if i % 2 == 0 else 10
+        c = [Fraction(rng.randint(-16, 16), 16) for _ in range(3)]
+        exps = even_tempered(rng, k)
+        ls = [(0, 1, 0, 1), (1, 1, 0, 0), (0, 1, 1, 0), (1, 0, 1, 0)][i % 4]
+        shells = [XShell(l, c, exps, [[Fraction(rng.choice([-1, 1]) * rng.randint(1, 16), 8)] for _ in range(k)])
+                  for l in ls]
+        cases.append({"kind": "eri8", "family": "many-primitives", "shells": [x.to_json() for x in shells], "model": False})
+        if i == 0:
+            cases.append({"kind": "perm", "fn": "eri", "basis": [shells[0].to_json(), shells[1].to_json()], "perms": [[1, 0]],
+                          "prm": {"notation": "chemist"}, "model": False})
+    return cases
+
+
 def gen_cases(tier, seed):
     rng = random.Random(1000003 * seed + 1111)
-    return gen_perm_cases(tier, rng) + gen_orient_cases(tier, rng) + gen_eri8_cases(tier, rng)
+    return gen_perm_cases(tier, rng) + gen_orient_cases(tier, rng) + gen_eri8_cases(tier, rng) \
+        + gen_special_cases(tier, random.Random(1000003 * seed + 111111))
 
 
 # ------------------------------------------------------------------------------------------------
